@@ -114,6 +114,7 @@ func init() {
 			{Name: "bytes", Run: c13Bytes},
 			{Name: "afteruse", Run: afterUse(c13Bytes)},
 			{Name: "srcviews", TShards: 2, Run: srcViewUnit(viewCallsC13)},
+			{Name: "casemasks", Run: caseMaskUnit("ACGT", 80, 300, func(k *K, v []byte) { checkPack(k, v, false) })},
 			{Name: "longcontext", QShards: 8, TShards: 12, Run: func(c *Ctx) {
 				longContextPanics(c, 0, "ACGTacgt", []byte{'N', 'U', 'u', '@', 0, 0xff, 'B', 0x80, '`'}, map[string]func([]byte){
 					"DNATo2Bit": func(s []byte) { sequtil.DNATo2Bit(nil, s) },
@@ -143,6 +144,13 @@ func init() {
 			{Name: "panics", Run: c14Panics},
 			{Name: "afteruse", Run: afterUse(c14Panics)},
 			{Name: "srcviews", TShards: 2, Run: srcViewUnit(viewCallsC14)},
+			{Name: "casemasks", Run: caseMaskUnit("ACGT", 60, 200, func(k *K, v []byte) {
+				checkFrames(k, v)
+				w := v[:len(v)/3*3]
+				if got, want := sequtil.Translate(nil, w), refTranslate(w); !bytes.Equal(got, want) {
+					k.Failf("translate", "Translate(%q) = %q, want %q", w, got, want)
+				}
+			})},
 			{Name: "aminoname", Run: c14AminoName},
 			{Name: "framepanics", Run: c14FramePanics},
 			{Name: "gigantic", Run: c14Gigantic},
